@@ -99,3 +99,8 @@ Definition xgt (x y : xnum) : bool := xlt y x.
 Definition xis_nan (x : xnum) : bool := match x with XNaN => true | _ => false end.
 
 Definition canonical_nan64 : Z := 9221120237041090560.  (* float('nan') *)
+
+(* ---- thresholds (exact integers) ---- *)
+Definition T32z : Z := 2 ^ 128 - 2 ^ 103.    (* FLT_MAX + ulp/2 : the least magnitude that rounds to +-inf in binary32 *)
+(* |x| >= t, for a non-NaN x and t > 0 *)
+Definition xabs_ge (x : xnum) (t : Z) : bool := negb (xlt x (XFin t 0)) || negb (xlt (XFin (- t) 0) x).
